@@ -139,6 +139,9 @@ func c14Mutate(s []byte, allBytes bool, emit func(class string, m []byte)) {
 	}
 	zero := [][]byte{{0x00}, {0x4c, 0x00}, {0x4d, 0x00, 0x00}, {0x4e, 0x00, 0x00, 0x00, 0x00}}
 	for _, t := range toks {
+		for _, h := range c14ExtremeClaims {
+			emit("insert-extreme-length-claim", c14Cat(s[:t.Start], h, s[t.Start:]))
+		}
 		for _, z := range zero {
 			emit("token->zero-length-push", splice(t, z))
 			emit("insert-zero-length-push", c14Cat(s[:t.Start], z, s[t.Start:]))
@@ -168,6 +171,14 @@ func c14Mutate(s []byte, allBytes bool, emit func(class string, m []byte)) {
 	emit("prepend-op0", c14Cat([]byte{0x00}, s))
 }
 
+// push headers whose length claim sits on the edge of the integer type that
+// may hold it (header + claim wraps in 32 bits for the largest ones)
+var c14ExtremeClaims = [][]byte{
+	{0x4c, 0xff}, {0x4d, 0xff, 0xff}, {0x4d, 0xfd, 0xff},
+	{0x4e, 0xff, 0xff, 0xff, 0xff}, {0x4e, 0xfe, 0xff, 0xff, 0xff}, {0x4e, 0xfd, 0xff, 0xff, 0xff}, {0x4e, 0xfc, 0xff, 0xff, 0xff}, {0x4e, 0xfb, 0xff, 0xff, 0xff}, {0x4e, 0xfa, 0xff, 0xff, 0xff},
+	{0x4e, 0xf0, 0xff, 0xff, 0xff}, {0x4e, 0xff, 0xff, 0xff, 0x7f}, {0x4e, 0x00, 0x00, 0x00, 0x80}, {0x4e, 0xfb, 0xff, 0xff, 0x7f}, {0x4e, 0x00, 0x00, 0x00, 0x01}, {0x4e, 0x00, 0x00, 0x01, 0x00},
+}
+
 var c14Soup = [][]byte{
 	{0x00}, {0x4c, 0x00}, {0x4d, 0x00, 0x00}, {0x4e, 0x00, 0x00, 0x00, 0x00}, {0x51}, {0x52}, {0x60}, {0xae}, {0xac}, {0x6a}, {0x76}, {0xa9}, {0x88}, {0x87}, {0x63}, {0x68},
 	{0x01, 0x01}, {0x01, 0x6f}, {0x02, 0x6f, 0x72}, {0x03, 0x6f, 0x72, 0x64}, {0x4c, 0x03, 0x6f, 0x72, 0x64}, {0x4f}, {0x01, 0xac}, {0x01, 0xae},
@@ -177,7 +188,7 @@ func init() {
 	p := &mon.Property{
 		ID: "C14",
 		Rule: "exhaustive: EVERY script of length <= 2 (65 793) in quick and <= 3 (16 843 009) in thorough. " +
-			"mutations: for fresh instances of every template shape (P2PKH, P2PK 33/65, P2SH, m-of-n multisig, OP_RETURN / OP_FALSE OP_RETURN data incl. one ending in OP_1 OP_CHECKMULTISIG and one with an undecodable tail, P2PKH inscription with/without empty fields and OP_RETURN tail; inscriptions additionally built by the library's own Tx.Inscribe): the instance, every single-byte flip (all 255 other values for scripts <= 330 bytes), every truncation, every instruction replaced by OP_0 / 4c00 / 4d0000 / 4e00000000, removed, duplicated, a zero-length push inserted at every boundary, every push shortened / lengthened / re-encoded non-minimally / its data or header dropped. " +
+			"mutations: for fresh instances of every template shape (P2PKH, P2PK 33/65, P2SH, m-of-n multisig, OP_RETURN / OP_FALSE OP_RETURN data incl. one ending in OP_1 OP_CHECKMULTISIG and one with an undecodable tail, P2PKH inscription with/without empty fields and OP_RETURN tail; inscriptions additionally built by the library's own Tx.Inscribe): the instance, every single-byte flip (all 255 other values for scripts <= 330 bytes), every truncation, every instruction replaced by OP_0 / 4c00 / 4d0000 / 4e00000000, removed, duplicated, a zero-length push and a push header with an extreme length claim (ff, ffff, 2^32-1 .. 2^32-6, 2^31) inserted at every boundary, every push shortened / lengthened / re-encoded non-minimally / its data or header dropped. " +
 			"zero-length: (OP_0 | 4c00 | 4d0000 | 4e00000000)^k for k = 1..20 (40 thorough) between 7 prefixes and 5 suffixes; random sequences of 1..24 pieces from a 24-piece alphabet of zero-length pushes, template opcodes and 'ord' fragments. random: random bytes of length 0..80. " +
 			"Each script is handed to ScriptType, IsP2PKH, IsP2PK, IsP2SH, IsData, IsMultiSigOut, IsP2PKHInscription, IsInscribed, PublicKeyHash, Addresses, ToASM, ParseInscription and json.Marshal(tx.NodeJSON()) (script as output locking script), each under the recover monitor. " +
 			"distinct_nontrivial = distinct scripts from the <= 2-byte sweep and from the mutation / zero-length / random phases (the 3-byte sweep is counted by counter exh:len3 only).",
@@ -319,6 +330,19 @@ func init() {
 					for _, suf := range suffixes {
 						judge(c, &c14Script{Script: c14Cat(pre, bytes.Repeat(z, k), suf), Class: "zero-length-run"})
 					}
+				}
+			}
+		}
+		c.Phase("extreme-length-claims")
+		n = 0
+		for _, h := range c14ExtremeClaims {
+			for _, pre := range prefixes {
+				for tail := 0; tail <= 8; tail++ {
+					n++
+					if !c.Case(n) {
+						continue
+					}
+					judge(c, &c14Script{Script: c14Cat(pre, h, bytes.Repeat([]byte{0x51}, tail)), Class: "extreme-length-claim"})
 				}
 			}
 		}
